@@ -161,8 +161,15 @@ def extrasOf (skip : Bool) (kvs : KVs) : KVs :=
 def withExtras (ex keep : KVs) : KVs :=
   if ex.isEmpty then keep else insert extKey (.map ex) keep
 
+/-- the path `processExtensions` works with for the child stored under `k` of a mapping at `p`: a mapping child is
+processed at `p.Next(k)`, but the mapping elements of a *sequence* child at `p.Next(strconv.Itoa(i))` — the key of
+the sequence itself is not part of their path (a quirk of the Go code, found by the correspondence) -/
+def childPath (p : TPath) (k : String) : Val → TPath
+  | .seq _ => p
+  | _ => pnext p k
+
 mutual
-/-- what `dict[key]` becomes for a child value at path `p` (a mapping: `processExtensions(v, p, nil)`) -/
+/-- what `dict[key]` becomes for a child value; `p` = `childPath` of it (a mapping: `processExtensions(v, p, nil)`) -/
 def pxVal (p : TPath) : Val → Val
   | .map kvs => .map (withExtras (extrasOf (isUserDefined p) kvs) (pxKVs p (isUserDefined p) kvs))
   | .seq xs => .seq (pxSeq p 0 xs)
@@ -171,7 +178,7 @@ def pxKVs (p : TPath) (skip : Bool) : KVs → KVs
   | [] => []
   | (k, v) :: r =>
     if !skip && isExtKey k then pxKVs p skip r
-    else (k, pxVal (pnext p k) v) :: pxKVs p skip r
+    else (k, pxVal (childPath p k v) v) :: pxKVs p skip r
 /-- only mapping elements of a sequence are visited -/
 def pxSeq (p : TPath) (i : Nat) : List Val → List Val
   | [] => []
